@@ -495,3 +495,42 @@ def rule_mixed_membership(ctx, typer, funcs, rule):
             else:
                 ctx.inst(rule, f, node, "membership in a container of one kind")
     return n
+
+
+def rule_word_membership(ctx, typer, funcs, rule):
+    """`name in <a word>`: membership of an attribute/key name in a plain string that looks like a name itself
+    (`("children")` written for `("children",)`) is a substring test - every name that is a part of the word matches"""
+    import re
+    n = 0
+    for f in funcs:
+        if f.is_lambda:
+            continue
+        for node in ast.walk(f.node):
+            if not (isinstance(node, ast.Compare) and len(node.ops) == 1 and isinstance(node.ops[0], (ast.In, ast.NotIn))):
+                continue
+            c = node.comparators[0]
+            val = None
+            if isinstance(c, ast.Constant):
+                val = c
+            elif isinstance(c, ast.Name):
+                v = resolve_local(f, c)
+                if isinstance(v, ast.Constant):
+                    val = v
+                elif v is c:
+                    r = ctx.p.resolve_name(f.module, c.id)
+                    if r is not None and r[0] == "const" and isinstance(r[1], ast.Constant):
+                        val = r[1]
+            elif isinstance(c, ast.Attribute) and isinstance(c.value, ast.Name) and f.cls is not None and c.value.id in (f.selfname, f.cls.name, "cls"):
+                from ..model import mangle
+                v = f.cls.assigns.get(mangle(f.cls.name, c.attr)) or f.cls.assigns.get(c.attr)
+                if isinstance(v, ast.Constant):
+                    val = v
+            if val is None or not isinstance(val.value, str):
+                continue
+            n += 1
+            if len(val.value) >= 3 and re.match(r"^[A-Za-z_][A-Za-z0-9_]*$", val.value) and not isinstance(node.left, ast.Constant):
+                ctx.viol(rule, f, node, "`%s` tests membership in the plain string %r (a one-element tuple written without its comma?): "
+                         "a substring test - every name that is a part of that word matches" % (norm(node), val.value))
+            else:
+                ctx.inst(rule, f, node, "membership in a character set")
+    return n
